@@ -5,7 +5,7 @@ from common import *  # noqa
 import framework as fw
 
 MODULE = "LWV.Props.C13"
-PARSE_OPS = ("cls", "mp", "eap", "rtp", "it", "crc")
+PARSE_OPS = ("cls", "mp", "eap", "rtp", "it", "crc", "ie")
 CORPUS_PROPS = ["C02", "C04", "C06", "C08", "C09", "C11", "C12"]
 
 ENV_A = {}
